@@ -5,12 +5,11 @@
    on every run).  Definitions only; proofs are in FurlProofs.v. *)
 From Coq Require Import ZArith NArith List String Bool.
 Import ListNotations.
-Require Import Verif.lib.PyLite Verif.lib.Regex Verif.gen.FurlGen Verif.lib.Utf8.
+Require Import Verif.lib.PyLite Verif.lib.Regex Verif.lib.FurlPrim Verif.gen.FurlGen Verif.lib.Utf8.
 Local Open Scope Z_scope.
 
 Definition str := list Z.     (* a Python str: its code points *)
 
-Definition zmem (x : Z) (l : list Z) : bool := existsb (Z.eqb x) l.
 
 (* ---- str.split(sep) / sep.join(..) for a one-character separator *)
 Fixpoint split_on (sep : Z) (s : str) : list str :=
@@ -294,25 +293,17 @@ Definition hint_to_endpoint_gen (pops : bool) (nonpublic : str -> bool) (kd : hk
 Definition hint_to_endpoint := hint_to_endpoint_gen I2P_POPS_PORT.
 
 (* ---- connection.get_endpoint: convert, find the type before the first ':', look up the plugin *)
-Fixpoint take_until (x : Z) (s : str) : str :=
-  match s with [] => [] | y :: s' => if y =? x then [] else y :: take_until x s' end.
-
 Fixpoint lookup_handler (ty : str) (hs : list (str * hkind)) : option hkind :=
   match hs with
   | [] => None
   | (n, kd) :: hs' => if list_eqb ty n then Some kd else lookup_handler ty hs'
   end.
 
+(* the dispatch itself is the GENERATED term FurlGen.get_endpoint_shape (connection.get_endpoint's _try read statement
+   by statement); here it is instantiated with the legacy conversion, the handler table and the handlers of this model *)
 Definition get_endpoint_gen (pops : bool) (handlers : list (str * hkind)) (nonpublic : str -> bool) (loc : str) : res endpoint :=
-  match convert_legacy_hint loc with
-  | Exc e => Exc e
-  | Ok hint =>
-      if negb (zmem HINT_TYPE_SEP hint) then invalid
-      else match lookup_handler (take_until HINT_TYPE_SEP hint) handlers with
-           | None => invalid
-           | Some kd => hint_to_endpoint_gen pops nonpublic kd hint
-           end
-  end.
+  get_endpoint_shape convert_legacy_hint (fun ty => lookup_handler ty handlers)
+                     (fun kd hint => hint_to_endpoint_gen pops nonpublic kd hint) loc.
 Definition get_endpoint := get_endpoint_gen I2P_POPS_PORT.
 
 (* ---- vocabulary of the step-count theorems about the FURL pattern (FurlProofs.v section 1) *)
